@@ -22,7 +22,7 @@ SubU == IF SIZE = "q" THEN {<<>>, <<115>>, <<46,47,46,46>>} ELSE {<<>>, <<115>>,
 KeyU == IF SIZE = "q" THEN {<<107>>, <<75>>, <<33>>} ELSE {<<107>>, <<75>>, <<33>>, <<>>, <<97,46,98>>}
 ValU == IF SIZE = "q" THEN {<<>>, <<118>>} ELSE {<<>>, <<118>>, <<38,61>>}
 \* checksum texts (through with_qualifier): valid non-canonical, malformed
-CkTextU == {<<66,58,48,65,44,97,58,102,70>>, <<122,122>>}              \* "B:0A,a:fF"  "zz"
+CkTextU == {<<66,58,48,65,44,97,58,102,70>>, <<122,122>>, <<>>, <<97,58>>}     \* "B:0A,a:fF"  "zz"  ""  "a:"
 \* typed checksum values (sequences of insert_raw calls): empty, one entry, case-duplicate, odd hex
 CkTypedU == {<<>>, << <<<<83,72,65>>, <<48,65>>>> >>, << <<<<97>>, <<48,48>>>>, <<<<65>>, <<49,49>>>> >>, << <<<<97>>, <<48>>>> >>}
 
